@@ -11,6 +11,7 @@ data with keepalive and snapshot requests.
 -/
 import Kap.Proofs.C19Frame
 import Kap.Proofs.C19Echo
+import Kap.Proofs.C19Trunc
 namespace Kap.Props.C19
 open Kap.C19
 
@@ -189,21 +190,26 @@ theorem boundary_end_to_end
   ⟨messages_read_back encQ decQ hQ reqs hlenQ cs₁ hcs₁ ewd₁, messages_read_back encR decR hR resps hlenR cs₂ hcs₂ ewd₂,
    echo_identity items hwf ctl hctl reqs hreqs h resps hresps⟩
 
-/-- STATED, NOT PROVED (checked on the implementation by the spec clause `framing-truncated` and by
-correspondence): a stream that ends early yields exactly the whole frames it contains — never a phantom or altered
-message — and the early end is an error unless it falls on a frame boundary. -/
-def framing_truncation_safe_stmt : Prop :=
-  ∀ (ps : List (List Nat)) (cs : Chunks) (ewd : Bool), (∀ p ∈ ps, p.length < 2 ^ 64) →
-    cs.flatten <+: (ps.map frame).flatten →
-    let k := (wholeFrames (ps.map (fun p => (frame p).length)) cs.flatten.length).1
-    let onBoundary := (wholeFrames (ps.map (fun p => (frame p).length)) cs.flatten.length).2
-    (readAll ewd cs).1 = ps.take k ∧ ((readAll ewd cs).2 = RdErr.eof ↔ onBoundary = true)
+/-- **Truncation safety**: a stream that ends early — cut anywhere, delivered in any fragmentation — yields exactly
+the whole frames it contains (never a phantom or altered message, never a lost whole one), and the early end is
+reported as an error unless it falls on a frame boundary. -/
+theorem framing_truncation_safe (ps : List (List Nat)) (cs : Chunks) (ewd : Bool) (hlen : ∀ p ∈ ps, p.length < 2 ^ 64)
+    (hcut : cs.flatten <+: (ps.map frame).flatten) :
+    (readAll ewd cs).1 = ps.take (wholeFrames (ps.map (fun p => (frame p).length)) cs.flatten.length).1 ∧
+    ((readAll ewd cs).2 = RdErr.eof ↔ (wholeFrames (ps.map (fun p => (frame p).length)) cs.flatten.length).2 = true) := by
+  obtain ⟨R, hR⟩ := hcut
+  have := readAllWith_truncated ewd ps (totalBytes cs + 1) cs R hlen hR (by unfold totalBytes; omega)
+  unfold readAll srcDataFirst
+  exact this
 
 /-! ### Non-vacuity: the hypotheses are met by concrete, non-trivial instances -/
 
 /-- 300 needs a two-byte varint; its bytes split one per read, a stray empty read, the rest in one chunk. -/
 example : putUvarint 300 = [172, 2] ∧ readUvarint [[172], [], [2, 7, 7]] = .ok (300, [[7, 7]]) := by
   refine ⟨by rw [putUvarint_ge (by decide), putUvarint_lt (by decide)], by rfl⟩
+
+/-- The same stream cut after 3 of its 4 bytes … and after 2 (inside the first frame): whole frames only, error. -/
+example : readAll false [[2], [8, 42]] = ([[8, 42]], RdErr.eof) ∧ readAll false [[2, 8]] = ([], RdErr.bodyEOF) := by decide
 
 /-- Two frames (the second empty) read back from one-byte reads with the last byte carrying `io.EOF`. -/
 example : readAll true [[2], [8], [42], [0]] = ([[8, 42], []], RdErr.eof) := by decide
